@@ -294,7 +294,9 @@ theorem C08_default_LoneAnonymousOperation (s : Schema) (d : QueryDoc) (errs : L
 /-
   C08 — validation accepts exactly what the rules allow: the part about
   OverlappingFieldsCanBeMerged (the repaired algorithm: `sameValue` compares children, R8g;
-  `doTypesConflict` lets a leaf type conflict with every other type, R8h).
+  `doTypesConflict` tests nullability at every level and lets a leaf type conflict with every other
+  type, R8h; (selection set, fragment) comparisons are memoised, so a repeated comparison reports
+  nothing — soundness is not affected by what the memos contain).
 
   Full statement (NOT proved — completeness is explored against the executable naive spec by the
   harness, DESIGN C08):
@@ -315,22 +317,20 @@ theorem C08_default_LoneAnonymousOperation (s : Schema) (d : QueryDoc) (errs : L
       `doTypesConflict` holds of the two declared types.
   Missing for the full statement: that the two fields of a nested leaf are reachable from the two
   enclosing fields (sub-selections followed through spreads), that `doTypesConflict` is the
-  negation of SameResponseShape's type test (it ignores the nullability of list types:
-  `[Int]!` vs `[Int]` do not conflict — a deviation from §5.3.2 visible in the definition), and
-  completeness.
+  negation of SameResponseShape's type test, and completeness.
 -/
 open Gql Gql.Validate Gql.Validate.Rules
 
 /-- Every conflict reported by one observer call (`findConflictsWithinSelectionSet`) is sound. -/
 theorem C08_overlap_sound_partial (s : SV) (d : QueryDoc) (l : Links) (parent : Option Definition)
-    (sels : Selections) (P P' : Pairs) (cs : List Conflict)
-    (h : overlapRun s d l parent sels P = some (P', cs)) :
+    (sels : Selections) (st st' : OSt) (cs : List Conflict)
+    (h : overlapRun s d l parent sels st = some (st', cs)) :
     ∀ c ∈ cs, Sound s (univOf d sels) false c :=
-  overlapRun_sound s d l parent sels P (P', cs) h
+  overlapRun_sound s d l parent sels st (st', cs) h
 
 /-- … hence every error the rule adds is the rendering (`Conflict.toErr`: message, single location
     `At(m.Position)`) of a sound conflict. -/
-theorem C08_overlap_errors_sound (s : SV) (d : QueryDoc) (P P' : Pairs) (e : Event) (errs : List RErr)
+theorem C08_overlap_errors_sound (s : SV) (d : QueryDoc) (P P' : OSt) (e : Event) (errs : List RErr)
     (h : overlappingFieldsStep s d P e = .ok P' errs) :
     errs = [] ∨ ∃ (sels : Selections) (cs : List Conflict), errs = cs.map Conflict.toErr ∧ ∀ c ∈ cs, Sound s (univOf d sels) false c := by
   have run : ∀ (parent : Option Definition) (sels : Selections),
